@@ -4,7 +4,7 @@ CONSTANTS
   MutCtx <- MutCtxQuick
   MaxVal = 0
   ExportMode = "quick"
-INVARIANTS Inv06_Clauses Inv06_Unique Inv06_Base Inv06_LabelScheme
+INVARIANTS Inv06_Clauses Inv06_Unique Inv06_Base Inv06_LabelScheme Inv06_Clock
 PROPERTIES P_C06 P_MutInvalid P_NoopSame P_Hist
 CONSTRAINT Emit06
 CHECK_DEADLOCK FALSE
